@@ -926,6 +926,8 @@ def explore(fn, timeout_ms=10000, prefix=(), max_paths=200000, sample_every=0, b
         try:
             obs = fn(sp) or []
             st["paths"] += 1
+            if obs:
+                st["paths_with_obs"] = st.get("paths_with_obs", 0) + 1
             for ob in obs:
                 st["obligations"] += 1
                 bn = st["by_name"].setdefault(ob.name, [0, 0])
